@@ -642,6 +642,7 @@ def deser_bounded(unit_name, root, tier, seed):
     focus = 'pattern' if 'read_list' in unit_name else 'any'
     jobs = [{'expr': f'_c14_bounded({seed}, {n}, {focus!r})'}]
     real = rp.run_real(jobs, prelude=BOUNDED_PRELUDE, root=root)[0]
+    rp.check_driver(real)
     if not real['ok']:
         return {'expr': jobs[0]['expr'], 'real': real, 'failed_clause': 'bounded driver raised: ' + str(real.get('exc'))}, 0
     d = rp.repr_to_data(real['repr'])
